@@ -33,7 +33,8 @@ import (
 )
 
 const (
-	cookieName = "session_id"
+	defaultIdle = 1800
+	cookieName  = "session_id"
 	headerName = "X-Session"
 	queryName  = "sid"
 )
@@ -95,7 +96,8 @@ type cfgIn struct {
 }
 
 type op struct {
-	kind             string // "a" | "r"
+	kind             string // "a" | "r" | "b" (begin) | "s" (step) | "e" (end)
+	rid              int
 	secs             int
 	api              string // "m" | "s"
 	ck, hd, qr       string
@@ -106,9 +108,15 @@ func (o op) String() string {
 	if o.kind == "a" {
 		return "a:" + strconv.Itoa(o.secs)
 	}
+	if o.kind == "s" || o.kind == "e" {
+		return o.kind + ":" + strconv.Itoa(o.rid)
+	}
 	sc := "-"
 	if len(o.script) > 0 {
 		sc = strings.Join(o.script, ".")
+	}
+	if o.kind == "b" {
+		return strings.Join([]string{"b", strconv.Itoa(o.rid), o.api, gen.Hex(o.ck), gen.Hex(o.hd), gen.Hex(o.qr), sc}, ":")
 	}
 	return strings.Join([]string{"r", o.api, gen.Hex(o.ck), gen.Hex(o.hd), gen.Hex(o.qr), sc}, ":")
 }
@@ -137,6 +145,21 @@ func parseOp(s string) (o op, ok bool) {
 			return o, false
 		}
 		return op{kind: "a", secs: n}, true
+	case len(f) == 2 && (f[0] == "s" || f[0] == "e"):
+		n, err := strconv.Atoi(f[1])
+		if err != nil || n < 0 || n > 99 {
+			return o, false
+		}
+		return op{kind: f[0], rid: n}, true
+	case len(f) == 7 && f[0] == "b" && (f[2] == "m" || f[2] == "s"):
+		n, err := strconv.Atoi(f[1])
+		if err != nil || n < 0 || n > 99 {
+			return o, false
+		}
+		f = append([]string{"r"}, f[2:]...)
+		o, ok = parseOp(strings.Join(f, ":"))
+		o.kind, o.rid = "b", n
+		return o, ok
 	case len(f) == 6 && f[0] == "r" && (f[1] == "m" || f[1] == "s"):
 		o = op{kind: "r", api: f[1], ck: gen.UnHex(f[2]), hd: gen.UnHex(f[3]), qr: gen.UnHex(f[4])}
 		if !idSafe(o.ck) || !idSafe(o.hd) || !idSafe(o.qr) {
@@ -211,6 +234,9 @@ type world struct {
 	acts  []string // action observations of the current request
 	ctx   *fasthttp.RequestCtx
 	cur   op
+	// schedules (overlapping requests): the flights by rid and the one whose goroutine runs right now
+	flights map[int]*flight
+	active  *flight
 }
 
 func newWorld(c cfgIn) (w *world, panicked bool) {
@@ -221,7 +247,6 @@ func newWorld(c cfgIn) (w *world, panicked bool) {
 	}()
 	w = &world{cfg: c}
 	conf := session.Config{
-		IdleTimeout:     time.Duration(c.idle) * time.Second,
 		AbsoluteTimeout: time.Duration(c.abs) * time.Second,
 		KeyGenerator: func() string {
 			w.nid++
@@ -230,7 +255,14 @@ func newWorld(c cfgIn) (w *world, panicked bool) {
 			return id
 		},
 	}
+	if c.source != "default" {
+		conf.IdleTimeout = time.Duration(c.idle) * time.Second
+	} else if c.idle != defaultIdle {
+		panic("default configuration has the default idle timeout")
+	}
 	switch c.source {
+	case "default":
+		// KeyLookup and IdleTimeout left to configDefault: cookie:session_id, 30 minutes
 	case "cookie":
 		conf.KeyLookup = "cookie:" + cookieName
 	case "header":
@@ -253,8 +285,8 @@ func newWorld(c cfgIn) (w *world, panicked bool) {
 	}
 	w.keys = ks
 	app := fiber.New()
-	app.Use("/m", mw, func(c fiber.Ctx) error { w.runScript(c, true); return nil })
-	app.Use("/s", func(c fiber.Ctx) error { w.runScript(c, false); return nil })
+	app.Use("/m", mw, func(c fiber.Ctx) error { w.handler(c, true); return nil })
+	app.Use("/s", func(c fiber.Ctx) error { w.handler(c, false); return nil })
 	w.h = app.Handler()
 	w.ctx = &fasthttp.RequestCtx{}
 	w.ctx.Init(&fasthttp.Request{}, nil, nil)
@@ -286,20 +318,37 @@ func valObs(v any) string {
 	return "vother"
 }
 
-// runScript executes the handler actions of the current request on the real API.
-func (w *world) runScript(c fiber.Ctx, viaMiddleware bool) {
+// handler is the route handler: it runs the script of the request it belongs to — the only request in
+// sequential histories, the flight the scheduler just started in schedules (w.active).
+func (w *world) handler(c fiber.Ctx, viaMiddleware bool) {
+	if fl := w.active; fl != nil {
+		w.runScript(c, viaMiddleware, fl.o.script, &fl.acts, fl.park)
+		return
+	}
+	w.runScript(c, viaMiddleware, w.cur.script, &w.acts, nil)
+}
+
+// runScript executes handler actions on the real API; yield (if any) is called before every action and
+// once after the last one.
+func (w *world) runScript(c fiber.Ctx, viaMiddleware bool, script []string, acts *[]string, yield func()) {
 	var m *session.Middleware
 	var sess *session.Session
 	if viaMiddleware {
 		m = session.FromContext(c)
 		if m == nil {
-			w.acts = append(w.acts, "nomw")
+			*acts = append(*acts, "nomw")
 			return
 		}
 		sess = m.Session
 	}
 	store := w.store
-	for _, a := range w.cur.script {
+	if m != nil {
+		store = m.Store() // the same store, through the middleware's accessor
+	}
+	for _, a := range script {
+		if yield != nil {
+			yield()
+		}
 		arg := a[1:]
 		obs := "-"
 		func() {
@@ -332,7 +381,11 @@ func (w *world) runScript(c fiber.Ctx, viaMiddleware bool) {
 				}
 				switch a[0] {
 				case 'I':
-					obs = "i" + gen.Hex(sess.ID()) + "/" + gen.B(sess.Fresh())
+					if m != nil && sess == m.Session {
+						obs = "i" + gen.Hex(m.ID()) + "/" + gen.B(m.Fresh())
+					} else {
+						obs = "i" + gen.Hex(sess.ID()) + "/" + gen.B(sess.Fresh())
+					}
 				case 'g':
 					if m != nil && sess == m.Session {
 						obs = valObs(m.Get(gen.UnHex(arg)))
@@ -396,7 +449,10 @@ func (w *world) runScript(c fiber.Ctx, viaMiddleware bool) {
 				}
 			}
 		}()
-		w.acts = append(w.acts, obs)
+		*acts = append(*acts, obs)
+	}
+	if yield != nil {
+		yield()
 	}
 }
 
@@ -427,12 +483,8 @@ func plusList(xs []string) string {
 	return strings.Join(o, "+")
 }
 
-func (w *world) do(o op) (obs string) {
-	defer func() {
-		if r := recover(); r != nil {
-			obs = "panic"
-		}
-	}()
+// buildRequest fills fctx with the request of o.
+func (w *world) buildRequest(fctx *fasthttp.RequestCtx, o op) {
 	var req fasthttp.Request
 	req.Header.SetMethod("GET")
 	path := "/" + o.api
@@ -447,13 +499,14 @@ func (w *world) do(o op) (obs string) {
 	if o.hd != "" {
 		req.Header.Set(headerName, o.hd)
 	}
-	fctx := w.ctx
 	fctx.Request.Reset()
 	fctx.Response.Reset()
 	fctx.ResetUserValues() // as fasthttp's server loop does between requests (fiber Locals live there)
 	req.CopyTo(&fctx.Request)
-	w.cur, w.acts, w.gens = o, nil, nil
-	w.h(fctx)
+}
+
+// reply reads the session cookie / header of the response: (ck, hd).
+func (w *world) reply(fctx *fasthttp.RequestCtx) (string, string) {
 	ck := "cnone"
 	fctx.Response.Header.VisitAllCookie(func(k, v []byte) {
 		if string(k) != w.cfg.sessionName() {
@@ -474,6 +527,20 @@ func (w *world) do(o op) (obs string) {
 	if v := fctx.Response.Header.Peek(headerName); len(v) > 0 {
 		hd = "h" + gen.Hex(string(v))
 	}
+	return ck, hd
+}
+
+func (w *world) do(o op) (obs string) {
+	defer func() {
+		if r := recover(); r != nil {
+			obs = "panic"
+		}
+	}()
+	fctx := w.ctx
+	w.buildRequest(fctx, o)
+	w.cur, w.acts, w.gens, w.active = o, nil, nil, nil
+	w.h(fctx)
+	ck, hd := w.reply(fctx)
 	acts := "noacts"
 	if len(w.acts) > 0 {
 		acts = strings.Join(w.acts, ".")
@@ -491,13 +558,17 @@ func runCase(c cfgIn, ops []op) string {
 	}
 	out := make([]string, len(ops))
 	for i, o := range ops {
-		if o.kind == "a" {
+		switch o.kind {
+		case "a":
 			time.Sleep(time.Duration(o.secs) * time.Second)
 			out[i] = "-"
-			continue
+		case "b", "s", "e":
+			out[i] = w.event(o)
+		default:
+			out[i] = w.do(o)
 		}
-		out[i] = w.do(o)
 	}
+	w.drain()
 	w.close()
 	if len(out) == 0 {
 		return "-"
@@ -589,7 +660,14 @@ func main() {
 	root := gen.New(o.Seed)
 	for i := lo; i < hi; i++ {
 		r := root.Fork(uint64(i))
-		c, ops, obs := genCase(r, wr)
+		var c cfgIn
+		var ops []op
+		var obs string
+		if r.Chance(1, 4) {
+			c, ops, obs = genSchedule(r, wr)
+		} else {
+			c, ops, obs = genCase(r, wr)
+		}
 		emit(wr, fmt.Sprintf("s%d.%d", o.Seed, i), c, ops, obs)
 	}
 }
